@@ -211,7 +211,7 @@ def rec_interp(rng, s0, s1, a, den, var=None, use_pointgroup=1, reuse=False):
         r0, r1 = W.build(s0, **_bkw(var)), W.build(s1, **_bkw(var))
         itp = W.under_test(SystemInterpolator, r0, r1, use_pointgroup=use_pointgroup) if use_pointgroup != 1 else W.under_test(SystemInterpolator, r0, r1)
         if reuse:
-            O._mutate(W.under_test(itp.interpolate, 0.25))
+            O._mutate(W.under_test(itp.interpolate, a / den))
         res = W.under_test(itp.interpolate, a / den)
     out, views = W.project(res)
     return dict(fn="interp", s0=W.sys_json(s0), s1=W.sys_json(s1), a=a, den=den, out=W.sys_json(out)), views, out
